@@ -62,9 +62,13 @@ func pay(n, size int) string {
 // tick of this scenario, so that consecutive file-creating operations carry
 // distinct millisecond timestamps (DESIGN §1.2).
 func (s *Scn) Tick() {
+	gap := s.TickGapMS
+	if gap < 1 {
+		gap = 1
+	}
 	for {
 		now := time.Now().UnixMilli()
-		if now > s.lastTick {
+		if now >= s.lastTick+gap {
 			s.lastTick = now
 			return
 		}
@@ -80,6 +84,10 @@ func (s *Scn) wexec(q string, args ...any) error {
 // Do applies one operation of the alphabet and records it.
 func (s *Scn) Do(op string) Outcome {
 	o := s.do(op)
+	if s.DistinctMS {
+		// files stamped during this operation are not later than now: the next tick waits past it
+		s.lastTick = time.Now().UnixMilli()
+	}
 	if !o.Illegal {
 		s.History = append(s.History, op)
 		s.Trace = append(s.Trace, op+"="+o.String())
@@ -181,6 +189,14 @@ func (s *Scn) do(op string) Outcome {
 				return s.wexec(fmt.Sprintf("INSERT INTO x%d (b) VALUES (?)", k), pay(k, 40))
 			}
 			return s.wexec(fmt.Sprintf("DROP TABLE x%d", k))
+		})
+	case "UV": // header-resident pragmas
+		return appWrite(func() error {
+			s.rowSeq++
+			if err := s.wexec(fmt.Sprintf("PRAGMA user_version = %d", s.rowSeq)); err != nil {
+				return err
+			}
+			return s.wexec(fmt.Sprintf("PRAGMA application_id = %d", 1000+s.rowSeq))
 		})
 	case "VAC":
 		if s.InRd {
@@ -408,7 +424,7 @@ func (s *Scn) do(op string) Outcome {
 		if k == 0 {
 			s.DB.L0Retention = 1000 * time.Hour
 		} else {
-			cut := fs[k-1].MTime.Add(500 * time.Microsecond)
+			cut := fs[k-1].MTime.Add(s.cutMargin())
 			s.DB.L0Retention = time.Since(cut)
 		}
 		err := s.DB.EnforceL0RetentionByTime(ctx)
@@ -426,7 +442,7 @@ func (s *Scn) do(op string) Outcome {
 		if k == 0 {
 			cut = time.Unix(0, 0)
 		} else {
-			cut = fs[k-1].MTime.Add(500 * time.Microsecond)
+			cut = fs[k-1].MTime.Add(s.cutMargin())
 		}
 		if s.Store != nil {
 			s.Store.SnapshotRetention = time.Since(cut)
@@ -554,6 +570,15 @@ func isLSOp(name string) bool {
 		return true
 	}
 	return false
+}
+
+// cutMargin places an age threshold half a tick gap after a file's millisecond timestamp.
+func (s *Scn) cutMargin() time.Duration {
+	gap := s.TickGapMS
+	if gap < 1 {
+		gap = 1
+	}
+	return time.Duration(gap) * 500 * time.Microsecond
 }
 
 func (s *Scn) tickIf() {
